@@ -118,6 +118,8 @@ def run(chk):
     nd2 = copy.deepcopy(base)
     nd2["loads"]["ground_loads"] = [x * 0.001 for x in nd2["loads"]["ground_loads"]]    # one borehole at minimum height is already too much
     add("valid, loads too small for the smallest field", nd2, "run", no_design=True)
+    coax = materialise(cfg("NEARSQUARE", "COAXIAL", months=12, loads={"kind": "balanced", "scale": 15000.0, "seed": 2}))
+    add("valid, coaxial pipe", coax, "run")
     add("valid, output path is an existing regular file", base, "outfile", no_design=True)
     add("valid, parent of the output path is a regular file", base, "outunder", no_design=True)
     cors = corruptions(base, rng, chk.tier)
@@ -189,13 +191,44 @@ def run(chk):
             a = (f"{{| validate_only := {coq_bool(j['flags'] == 'validate')}; convert := {'ConvertOther' if j['flags'] == 'convert_other' else 'NoConvert'}; "
                  f"has_outdir := {coq_bool(j['flags'] != 'nooutdir')} |}}")
             w = "WroteOutputs" if written or not valid else ("WroteOutputs" if code == 0 else "Raised")
-            items.append(f"({a}, [{'; '.join(coq_bool(b) for b in v)}], {w}, {1 if code != 0 else 0}%nat, {coq_bool(written)})")
+            items.append(f"({a}, [{'; '.join(coq_bool(b) for b in v)}], {w}, {1 if code != 0 else 0}%nat, {coq_bool(written)}, true)")
+    # ---- --convert IDF on the summaries the designs above wrote: exit status zero only when out.idf was written next to the summary
+    conv = []
+    for k, (j, (code, written, err)) in enumerate(zip(jobs, res)):
+        if j["flags"] == "run" and code == 0 and written and j["label"] in ("valid", "valid, coaxial pipe"):
+            conv.append((j["label"], os.path.join(work, f"j{k}", "out", "SimulationSummary.json")))
+    # a summary without its Gfunction.csv beside it (the conversion reads both): copied alone into an empty directory
+    if conv:
+        import shutil as _sh
+        lone = os.path.join(work, "lone")
+        os.makedirs(lone, exist_ok=True)
+        _sh.copy(conv[0][1], os.path.join(lone, "SimulationSummary.json"))
+        conv.append(("valid, summary without Gfunction.csv", os.path.join(lone, "SimulationSummary.json")))
+    for label, sp in conv:
+        idf = os.path.join(os.path.dirname(sp), "out.idf")
+        if os.path.exists(idf):
+            os.remove(idf)
+        try:
+            code, err = run_cli([sp, "-c", "IDF"])
+        except subprocess.TimeoutExpired:
+            code, err = -9, "timeout"
+        wrote = os.path.exists(idf) and os.path.getsize(idf) > 0
+        chk.cov["evaluations"] += 1
+        nontrivial += 1
+        dist[f"convert_idf/{label}/exit{code}/{'idf' if wrote else 'no idf'}"] = 1
+        if code == 0 and not wrote and len(chk.violations) < 6:
+            chk.violation("cli", {"label": label, "flags": "convert_idf"}, {"exit": code, "out.idf_written": wrote, "stderr": err},
+                          "exit status zero only when the output file (out.idf) was written")
+        if code != 0 and wrote and len(chk.violations) < 6:
+            chk.violation("cli", {"label": label, "flags": "convert_idf"}, {"exit": code, "out.idf_written": wrote, "stderr": err},
+                          "the conversion wrote its output: exit status zero")
+        items.append(f"({{| validate_only := false; convert := ConvertIDF; has_outdir := false |}}, [true], WroteOutputs, {1 if code != 0 else 0}%nat, false, {coq_bool(wrote)})")
     chk.cov["input_distribution"] = dist
     if getattr(chk, "model_ok", False) and items:
-        txt = HEADER + "Definition cases : list (args * verdicts * worker_outcome * nat * bool) := [\n" + ";\n".join(items) + """].
-Definition ok (c : args * verdicts * worker_outcome * nat * bool) : bool :=
-  let '(a, v, w, code, written) := c in
-  let o := cli a v true w in Nat.eqb (exit_code o) code && Bool.eqb (outputs_written o) written.
+        txt = HEADER + "Definition cases : list (args * verdicts * worker_outcome * nat * bool * bool) := [\n" + ";\n".join(items) + """].
+Definition ok (c : args * verdicts * worker_outcome * nat * bool * bool) : bool :=
+  let '(a, v, w, code, written, idf) := c in
+  let o := cli a v idf w in Nat.eqb (exit_code o) code && Bool.eqb (outputs_written o) written.
 Eval vm_compute in (length cases, length (filter (fun c => negb (ok c)) cases)).
 """
         rcq, out, err = chk.coq_eval("cli", txt)
@@ -210,7 +243,7 @@ Eval vm_compute in (length cases, length (filter (fun c => negb (ok c)) cases)).
             chk.cov["correspondence_cases"] = int(m.group(1))
     chk.cov["distinct_nontrivial"] = nontrivial
     chk.cov["rule"] = ("the real entry point (python -m ghedesigner.manager, what the console script calls) as a subprocess: a valid input, every single-field corruption (missing key, wrong type; "
-                       "two keys per section in quick, all in thorough), out-of-range / unknown-enum values, re-cased names, x flag combinations (run, --validate-only, no output directory, unsupported --convert); "
+                       "two keys per section in quick, all in thorough), out-of-range / unknown-enum values, re-cased names, x flag combinations (run, --validate-only, no output directory, unsupported --convert, --convert IDF on the written summaries of a U-tube and a coaxial design and on a summary without its g-function file); "
                        "non-trivial = one invocation")
     chk.sample({"job": {"label": jobs[0]["label"], "flags": jobs[0]["flags"]}, "exit": res[0][0], "outputs_written": res[0][1]})
     chk.cov["trusted_base"] = ["jsonschema verdicts per section are computed by the harness with the tool's own schema files and fed to the model (the click framework and jsonschema are not modelled)"]
